@@ -129,6 +129,86 @@ func describe(h [][]pipeline.Change) []string {
 // classify names the cause of a (minimal) diverging history. Known causes get a specific
 // key; anything else is keyed by the shape of the history so that it is never mistaken
 // for a known finding.
+// untrackedTerminatingPodCause: with drain-support a terminating pod selected by a service
+// is rendered as a weight-0 server, but only pods that GetTerminatingPods already returned
+// are tracked: a pod that was never an endpoint and starts terminating (or is first seen
+// terminating) has no link, so its event rebuilds nothing. Narrow and causal: the last batch
+// has an event of a terminating pod, every difference is a weight-0 server with the address
+// of such a pod on one side only, and the divergence vanishes when those pods are delivered
+// not terminating.
+func untrackedTerminatingPodCause(h [][]pipeline.Change, diff []string) bool {
+	if len(h) < 2 || len(diff) == 0 {
+		return false
+	}
+	ips := map[string]bool{}
+	for _, c := range h[len(h)-1] {
+		if pod, ok := c.Obj.(*api.Pod); ok && c.Op != pipeline.Delete && pod.DeletionTimestamp != nil && pod.Status.PodIP != "" {
+			ips[pod.Status.PodIP] = true
+		}
+	}
+	if len(ips) == 0 {
+		return false
+	}
+	for _, d := range diff {
+		if !strings.HasPrefix(d, "backend ") && !strings.HasPrefix(d, "route ") {
+			return false
+		}
+		i := strings.Index(d, ": ")
+		sides := strings.SplitN(d[i+2:], "  VS  ", 2)
+		if i < 0 || len(sides) != 2 {
+			return false
+		}
+		var a, b map[string]interface{}
+		if json.Unmarshal([]byte(sides[0]), &a) != nil || json.Unmarshal([]byte(sides[1]), &b) != nil {
+			return false
+		}
+		count := map[string]int{}
+		for _, x := range []struct {
+			m map[string]interface{}
+			d int
+		}{{a, 1}, {b, -1}} {
+			if l, ok := x.m["servers"].([]interface{}); ok {
+				for _, sv := range l {
+					count[fmt.Sprint(sv)] += x.d
+				}
+			}
+			delete(x.m, "servers")
+		}
+		ra, _ := json.Marshal(a)
+		rb, _ := json.Marshal(b)
+		if string(ra) != string(rb) {
+			return false
+		}
+		for sv, n := range count {
+			if n == 0 {
+				continue
+			}
+			ip := sv
+			if k := strings.Index(sv, ":"); k > 0 {
+				ip = sv[:k]
+			}
+			if !ips[ip] || !strings.Contains(sv, " w0 ") {
+				return false
+			}
+		}
+	}
+	stripped := append([][]pipeline.Change{}, h[:len(h)-1]...)
+	var last []pipeline.Change
+	for _, c := range h[len(h)-1] {
+		if pod, ok := c.Obj.(*api.Pod); ok && c.Op != pipeline.Delete && pod.DeletionTimestamp != nil {
+			cp := pod.DeepCopy()
+			cp.DeletionTimestamp = nil
+			cp.Finalizers = nil
+			last = append(last, pipeline.Change{Op: c.Op, Obj: cp})
+		} else {
+			last = append(last, c)
+		}
+	}
+	stripped = append(stripped, last)
+	i, _, err := diverges(stripped, false, "k")
+	return err == nil && i < 0
+}
+
 func classify(h [][]pipeline.Change, diff []string) string {
 	// cause: an ingress with spec.defaultBackend that is added / updated / becomes valid while
 	// the default host is not dirty: trackAddedIngress does not pre-track the default host, so
@@ -174,6 +254,9 @@ func classify(h [][]pipeline.Change, diff []string) string {
 	}
 	if unskippedPathCause(h, diff) {
 		return "C01/unskipped-path-acquires-untracked-backend"
+	}
+	if untrackedTerminatingPodCause(h, diff) {
+		return "C01/untracked-pod-starts-terminating"
 	}
 	var shape []string
 	for _, b := range h {
